@@ -136,7 +136,7 @@ PROPS["C17"] = dict(pkg="c17", level="exploration",
                "nonce/salt/GenerateCryptoKey randomness comes from crypto/rand inside snacl; failure messages carry key, plaintext and ciphertext in hex"],
   units=[dict(name="cryptokey", run="^TestC17CryptoKey$", quick=15000, thorough=300000, shards_quick=1, shards_thorough=16),
          dict(name="secretkey", run="^TestC17SecretKey$", quick=1000, thorough=8000, shards_quick=1, shards_thorough=16, gomaxprocs=1),
-         dict(name="manager", run="^TestC17Manager$", quick=4000, thorough=60000, shards_quick=1, shards_thorough=16),
+         dict(name="manager", run="^TestC17Manager$", quick=4000, thorough=15000, shards_quick=1, shards_thorough=16),
          dict(name="regress", kind="plain", run="^TestC17Regress", quick=None, thorough=None),
          dict(name="fuzz-decrypt", kind="fuzz", run="^FuzzC17Decrypt$", tiers=["thorough"], thorough="120s", timeout=600),
          dict(name="fuzz-unmarshal", kind="fuzz", run="^FuzzC17Unmarshal$", tiers=["thorough"], thorough="60s", timeout=600)])
